@@ -437,7 +437,14 @@ func Failf(sig, format string, a ...any) {
 }
 
 // Run executes the threads created so far (and those they create) until nothing is enabled.
+// ExecStart: functions run at the start of every execution (shims use it to forget state that lives
+// in package-level variables of the code under test, e.g. the free lists of sync.Pool stand-ins).
+var ExecStart []func()
+
 func (s *Sched) Run() {
+	for _, f := range ExecStart {
+		f()
+	}
 	s.running = true
 	en, _ := s.enabledSet(nil, false)
 	if len(en) > 0 {
